@@ -17,7 +17,8 @@ Structural clauses decided (DESIGN.md section 5/C07):
 """
 import ast
 
-from ..engine import Analysis, is_call_to, is_suspension, short, where_fn, tested, key_truth
+from ..engine import Analysis, is_call_to, is_suspension, short, where_fn, tested, \
+    key_truth, event_callees, invoked
 from ..model import AnalysisError
 from ..norm import bool_term
 from ..paths import CANCEL_SCOPE
@@ -106,8 +107,10 @@ def run(check, an: Analysis):
     resolved = set()
     for path in an.paths(close):
         for event in path.events:
-            if is_call_to(event, '_disable_interrupts'):
-                resolved |= {c.fn.qn for c in event['callees']}
+            if is_call_to(event, '_disable_interrupts') and event.kind != 'leave':
+                # the first one reached decides which implementation runs
+                resolved |= {c.fn.qn for c in event_callees(event)}
+                break
     check.instance('P', '_close_scope[InterruptScope]->override',
                    resolved == {ISCOPE + '._disable_interrupts'}, where_fn(close.fn),
                    'closing an until-scope runs the overriding _disable_interrupts: %s'
